@@ -191,22 +191,22 @@ def monitor_emit(SA, j):
 # ----------------------------------------------------------------------------------------------- contracts
 
 CGWF = "self._shape == 'dynamic' or self._shape == 'single' or self._shape == 'multiple'"  # class invariant (Shape enum)
-RAISES = {"GotranxError": "ode_has_none_value(self.ode)", "CycleError": "ode_cyclic(self.ode)"}
+RAISES = {"GotranxError": "maybe", "CycleError": "maybe", "KeyError": "maybe"}
 
 contract(
-    B + "state_index", params={"self": "CG"}, ret="Text", raises=RAISES,
+    B + "state_index", params={"self": "CG"}, ret="Text", raises=RAISES, requires=["WF(self.ode)"],
     where={"SS": "self.ode.sorted_states()"},
     ensures={"data_is_position_in_sorted_states": "result == self._format(self.template.state_index(index_dict(SS, len(SS))))"},
     comps={0: "index_dict(SS, j)"}, properties=("C04",),
 )
 contract(
-    B + "parameter_index", params={"self": "CG"}, ret="Text",
+    B + "parameter_index", params={"self": "CG"}, ret="Text", requires=["WF(self.ode)"],
     where={"PS": "self.ode.parameters"},
     ensures={"data_is_position_in_parameters": "result == self._format(self.template.parameter_index(index_dict(PS, len(PS))))"},
     comps={0: "index_dict(PS, j)"}, properties=("C04",),
 )
 contract(
-    B + "monitor_index", params={"self": "CG"}, ret="Text", raises=RAISES,
+    B + "monitor_index", params={"self": "CG"}, ret="Text", raises=RAISES, requires=["WF(self.ode)"],
     where={"SA": "self.ode.sorted_assignments(True, False)"},
     ensures={"data_is_position_among_monitored": "result == self._format(self.template.monitor_index(monitor_dict(SA, len(SA))))"},
     loops={0: {"invariant": {"data": "data == monitor_dict(SA, k)", "index": "index == count_mon(SA, k)"},
@@ -236,7 +236,7 @@ from .models import TText  # noqa: E402
 core.COERCIONS[("str", repr(TText))] = _text_of_str
 
 contract(
-    B + "initial_state_values", params={"self": "CG", "name": "Name"}, ret="Text", raises=RAISES,
+    B + "initial_state_values", params={"self": "CG", "name": "Name"}, ret="Text", raises=RAISES, requires=["WF(self.ode)"],
     where={"SS": "self.ode.sorted_states()", "VALS": "map_value(SS, len(SS))"},
     ensures={"slot_i_gets_value_of_sorted_state_i":
              "result == self._format(self.template.init_state_values(code=init_code(VALS, name, len(VALS)), state_names=map_name(SS, len(SS)), state_values=map_printed_value(self, SS, len(SS)), name=name))"},
@@ -244,7 +244,7 @@ contract(
     properties=("C04",),
 )
 contract(
-    B + "initial_parameter_values", params={"self": "CG", "name": "Name"}, ret="Text",
+    B + "initial_parameter_values", params={"self": "CG", "name": "Name"}, ret="Text", requires=["WF(self.ode)"],
     where={"PS": "self.ode.parameters", "VALS": "map_value(PS, len(PS))"},
     ensures={"slot_i_gets_value_of_parameter_i":
              "result == self._format(self.template.init_parameter_values(code=init_code(VALS, name, len(VALS)), parameter_names=map_name(PS, len(PS)), parameter_values=map_printed_value(self, PS, len(PS)), name=name))"},
@@ -252,13 +252,13 @@ contract(
     properties=("C04",),
 )
 contract(
-    B + "_state_assignments", params={"self": "CG", "states": "Rec:IndexedBase", "remove_unused": "Bool"}, ret="Seq[Stmt]", raises=RAISES,
+    B + "_state_assignments", params={"self": "CG", "states": "Rec:IndexedBase", "remove_unused": "Bool"}, ret="Seq[Stmt]", raises=RAISES, requires=["WF(self.ode)"],
     where={"SS": "self.ode.sorted_states()"},
     ensures={"slot_is_position_before_filtering": "result == state_unpack(self, SS, states.name, remove_unused, len(SS))"},
     comps={0: "state_unpack(self, SS, states.name, remove_unused, j)"}, properties=("C04", "C12"),
 )
 contract(
-    B + "_parameter_assignments", params={"self": "CG", "parameters": "Rec:IndexedBase"}, ret="Seq[Stmt]",
+    B + "_parameter_assignments", params={"self": "CG", "parameters": "Rec:IndexedBase"}, ret="Seq[Stmt]", requires=["WF(self.ode)"],
     where={"PS": "self.ode.parameters"},
     ensures={"slot_is_position_before_filtering": "result == param_unpack(self, PS, parameters.name, len(PS))"},
     comps={0: "param_unpack(self, PS, parameters.name, j)"}, properties=("C04", "C12"),
@@ -274,7 +274,7 @@ contract(
 _ARGS = "ite(dict_len(self._missing_variables) > 0, F.arguments + ['missing_variables'], F.arguments)"
 
 contract(
-    B + "rhs", params={"self": "CG", "order": "Enum:RHSArgument", "use_cse": "Bool"}, ret="Text", raises=RAISES,
+    B + "rhs", params={"self": "CG", "order": "Enum:RHSArgument", "use_cse": "Bool"}, ret="Text", raises=RAISES, requires=["WF(self.ode)"],
     enum_params={"order": "RHSArgument"},
     where={"F": "self._rhs_arguments(order)", "SA": "self.ode.sorted_assignments(True, self.remove_unused)"},
     ensures={"emits_rhs_emit":
@@ -294,7 +294,7 @@ contract(
 )
 contract(
     B + "monitor_values", params={"self": "CG", "order": "Enum:RHSArgument", "use_cse": "Bool"}, ret="Text", raises=RAISES,
-    requires=[CGWF],
+    requires=[CGWF, "WF(self.ode)"],
     enum_params={"order": "RHSArgument"},
     where={"F": "self._rhs_arguments(order)", "SA": "self.ode.sorted_assignments(True, False)"},
     ensures={"emits_monitor_emit":
@@ -355,7 +355,7 @@ def _kw_ok(ctx, st, f, kwargs):
 
 contract(
     B + "scheme", params={"self": "CG", "f": "PyFunc", "order": "Enum:SchemeArgument", "kwargs": "PyDict"}, ret="Text",
-    raises=dict(RAISES, TypeError="not kw_ok(f, kwargs)"),
+    raises=dict(RAISES, TypeError="not kw_ok(f, kwargs)"), requires=["WF(self.ode)"],
     enum_params={"f": _F_VARIANTS, "order": "SchemeArgument:2", "kwargs": [{}, {"delta": _delta}, {"delta": _delta, "stiff_states": _stiff}]},
     where={"F": "self._scheme_arguments(order)"},
     ensures={"emits_scheme_with_all_states_unpacked":
